@@ -9,12 +9,18 @@ import Mathlib.Analysis.Complex.Basic
   formulas (`Gen.sense*`) are regenerated from the source on every run.  The model is tied to the real
   operator by the correspondence streams of `harness/props/c16.py`.
 
-  Proved here:      forward formula, forward batch invariance for EVERY batch size (shared and per-coil
-                    weights), partition of the coils by the generated slice bounds, which keywords the
-                    batches receive, the adjoint's batch decomposition (`…_partial`: on the level of the
-                    per-coil sums), recon set-ups and the objective they denote, recovery of consistent data.
-  Only validated by correspondence/search:  the adjoint of the model vs the real `.H` for every batch size,
-                    FFT/NUFFT being the matrix `F`, and that the iterative solvers reach the minimiser.
+  Proved here:      forward formula (row-wise `sense_denote` and index-wise `sense_denote_index`), forward batch
+                    invariance for EVERY batch size (shared and per-coil weights), partition of the coils by the
+                    generated slice bounds, which keywords the batches receive; the adjoint `Op.adj` of the model (the
+                    definition the driver runs against the real `A.H`): its formula `Σ_c conj(mps_c)⊙Fᴴ(conj√w_c⊙y_c)`
+                    (`sense_adjoint_denote`, `sense_adjoint_index`), `Vstack.H = Hstack` of the batch adjoints
+                    (`vstack_adjoint`, for an abstract `Fᴴ`), adjoint batch invariance for EVERY batch size
+                    (`sense_adjoint_batch_invariant`), the adjoint identity `⟨A x, y⟩ = ⟨x, Aᴴ y⟩` for an abstract
+                    `F`/`Fᴴ` pair (`sense_dot_test_abstract`) and for the model, unbatched and every batch size
+                    (`sense_dot_test`); recon set-ups and the objective they denote, recovery of consistent data.
+  Only validated by correspondence/search:  FFT/NUFFT being the matrix `F` (C05/C06), the real `A`, `A.H` being the
+                    model's `Op.apply`, `Op.adj` (compared on every run for every batch size), and that the iterative
+                    solvers reach the minimiser.
 -/
 namespace SigpyVerif.C16
 open SigpyVerif
@@ -71,7 +77,7 @@ theorem sense_denote (o : SenseOpts α) (x : Vec α) :
 /-- the weights slice uses the same bounds as the coil slice -/
 theorem weights_sliced_with_coils : Gen.senseWeightsSliced = true ∧
     (∀ c b n, Gen.senseWLo c b n = Gen.senseMpsLo c b n) ∧ (∀ c b n, Gen.senseWHi c b n = Gen.senseMpsHi c b n) :=
-  ⟨rfl, fun _ _ _ => rfl, fun _ _ _ => rfl⟩
+  ⟨rfl, fun _ _ _ => by unfold Gen.senseWLo Gen.senseMpsLo; ring, fun _ _ _ => by unfold Gen.senseWHi Gen.senseMpsHi; ring⟩
 
 /-- each batch is built with everything but `coil_batch_size`/`comm`: the batched branch forwards
     `coord`, `weights`, `tseg`, `ishape` and `transp_nufft` (the pre-fix code dropped two of them) -/
@@ -133,7 +139,7 @@ theorem sense_batches_nonempty (n B : Nat) (hB : 0 < B) (c : Int)
   rw [mem_pyRange0'] at hc
   unfold Gen.senseNumCoilBatches at hc
   rw [pyDiv_of_pos _ (by exact_mod_cast hB)] at hc
-  unfold Gen.senseMpsLo
+  rw [(senseMps_lo_hi _ _ _).1]
   obtain ⟨h0, h1⟩ := hc
   have hBz : (0 : Int) < B := by exact_mod_cast hB
   refine ⟨by positivity, ?_⟩
@@ -143,8 +149,9 @@ theorem sense_batches_nonempty (n B : Nat) (hB : 0 < B) (c : Int)
 
 /-- **sense_adjoint_batch_sum_partial.** The adjoint of the batched operator is `Hstack` of the batch
     adjoints: a sum over batches of the per-batch sums `Σ_{c ∈ batch} t(mps_c, y_c)`.  For every per-coil
-    contribution `t` that sum over the generated slices equals the single sum over all coils.  (Partial: the
-    identification of `Op.adj` of the model with these sums is validated by correspondence, not proved.) -/
+    contribution `t` that sum over the generated slices equals the single sum over all coils.  (Sum form only;
+    SUPERSEDED by `sense_adjoint_batch_invariant` below, which identifies `Op.adj` of the model — Vstack.H = Hstack
+    with the row split — with these sums and proves the full statement.  Kept because it is audited by name.) -/
 theorem sense_adjoint_batch_sum_partial {β γ : Type} (t : β → γ → α) (mps : List β) (y : List γ) (B : Nat) (hB : 0 < B) :
     ((Gen.senseBatchRange (Gen.senseNumCoilBatches mps.length B) mps.length B).map fun c =>
       (List.zipWith t (pySlice mps (Gen.senseMpsLo c B mps.length) (Gen.senseMpsHi c B mps.length))
@@ -154,6 +161,449 @@ theorem sense_adjoint_batch_sum_partial {β γ : Type} (t : β → γ → α) (m
   rw [sum_map_sum, batch_slices_partition _ _ _ hB (by simp [List.length_zipWith])]
 
 end operator
+
+/-! ### the adjoint -/
+
+section adjoint
+variable {α : Type} [CommSemiring α]
+
+/-- `Fᴴ` of the matrix `F` on one k-space row (conjugate transpose): `(Fᴴ y)[r] = Σ_k conj F[k,r] · y[k]`
+    — literally what `Leaf.adj` (the definition the driver runs) computes for the Fourier leaf -/
+def fourierAdjRow (conj : α → α) (R : Nat) (F : Mat α) (row : Vec α) : Vec α :=
+  (List.range R).map fun r => (List.zipWith (fun (frow : Vec α) (yk : α) => conj (frow.getD r 0) * yk) F row).sum
+
+/-- `P.H` on one row: multiply by `conj √w` (no weights: identity) -/
+def weighRow (conj : α → α) (sw : Option (Vec α)) (row : Vec α) : Vec α :=
+  match sw with
+  | none => row
+  | some s => vmul (s.map conj) row
+
+/-- per coil: its sensitivity map and its `√w` row -/
+def coilData (sqrt : α → α) (w : Weights α) (mps : Mat α) : List (Vec α × Option (Vec α)) :=
+  match w with
+  | .none => mps.map fun m => (m, none)
+  | .shared w => mps.map fun m => (m, some (w.map (wpow sqrt)))
+  | .perCoil w => List.zipWith (fun m wr => (m, some (wr.map (wpow sqrt)))) mps w
+
+/-- contribution of one coil to image position `r`: `conj(mps_c[r]) · Fᴴ(conj(√w_c) ⊙ y_c)[r]`, for an ABSTRACT
+    `Fᴴ : k-space row → image` -/
+def coilAdjTerm (conj : α → α) (FH : Vec α → Vec α) (r : Nat) (cd : Vec α × Option (Vec α)) (y : Vec α) : α :=
+  conj (cd.1.getD r 0) * (FH (weighRow conj cd.2 y)).getD r 0
+
+/-- the documented adjoint `y ↦ Σ_c conj(mps_c) ⊙ Fᴴ(√w_c ⊙ y_c)` -/
+def explicitAdjoint (conj : α → α) (FH : Vec α → Vec α) (R : Nat) (coils : List (Vec α × Option (Vec α))) (Y : Mat α) : Vec α :=
+  (List.range R).map fun r => (List.zipWith (coilAdjTerm conj FH r) coils Y).sum
+
+theorem unbatched_adj (conj sqrt : α → α) (mps F : Mat α) (w : Weights α) (Y : Mat α) :
+    (senseUnbatched sqrt mps F w).adj conj Y =
+      [explicitAdjoint conj (fourierAdjRow conj (mps.headD []).length F) (mps.headD []).length (coilData sqrt w mps) Y] := by
+  cases w with
+  | none =>
+    simp [senseUnbatched, Chain.adj, Leaf.adj, explicitAdjoint, coilData, coilAdjTerm, weighRow, fourierAdjRow,
+      List.zipWith_map_left, List.zipWith_map_right]
+  | shared w =>
+    simp [senseUnbatched, Chain.adj, Leaf.adj, explicitAdjoint, coilData, coilAdjTerm, weighRow, fourierAdjRow,
+      List.zipWith_map_left, List.zipWith_map_right]
+  | perCoil w =>
+    simp only [senseUnbatched, Chain.adj, Leaf.adj, explicitAdjoint, coilData, List.foldl_cons, List.foldl_nil,
+      List.zipWith_map_left, List.map_zipWith, List.cons.injEq, and_true]
+    apply List.map_congr_left
+    intro r _
+    have h : List.zipWith (fun (m wr : Vec α) => (m, some (List.map (wpow sqrt) wr))) mps w
+        = (List.zipWith Prod.mk mps w).map (fun p => (p.1, some (p.2.map (wpow sqrt)))) := by
+      rw [List.map_zipWith]
+    rw [zipWith_zipWith_pair, h, List.zipWith_map_left]
+    simp [coilAdjTerm, weighRow, fourierAdjRow]
+
+/-- **sense_adjoint_denote.** Without batching `Sense(mps, weights).H(y)` is
+    `Σ_c conj(mps_c) ⊙ Fᴴ(conj(√w_c) ⊙ y_c)` with `Fᴴ` the conjugate transpose of the Fourier matrix. -/
+theorem sense_adjoint_denote (conj : α → α) (o : SenseOpts α) (Y : Mat α) :
+    (sense { o with batch := none }).adj conj Y =
+      [explicitAdjoint conj (fourierAdjRow conj (o.mps.headD []).length o.F) (o.mps.headD []).length
+        (coilData o.sqrt o.weights o.mps) Y] := by
+  unfold sense
+  have : Gen.senseBatched (o.mps.length : Int) (Gen.senseBatchDefault (o.mps.length : Int)) = false := by
+    unfold Gen.senseBatched Gen.senseBatchDefault; simp
+  simp only [this, Bool.false_eq_true, if_false, Op.adj]
+  exact unbatched_adj conj o.sqrt o.mps o.F o.weights Y
+
+/-- **vstack_adjoint (Vstack.H = Hstack of the adjoints).**  If every stacked chain `mk c` has the adjoint
+    `y ↦ Σ_{coils of c} conj(mps)·Fᴴ(√w·y)` over its own coils `sl c` and as many rows as coils, then the
+    adjoint of `Vstack(axis=0)` — split `Y` by the chains' row counts, apply the adjoints, sum — is the
+    adjoint formula over the CONCATENATED coils.  `FH` is an arbitrary map (no linearity needed). -/
+theorem vstack_adjoint {ι : Type} (conj : α → α) (FH : Vec α → Vec α) (R : Nat) (batches : List ι)
+    (mk : ι → Chain α) (sl : ι → List (Vec α × Option (Vec α)))
+    (hadj : ∀ c ∈ batches, ∀ y, (mk c).adj conj y = [explicitAdjoint conj FH R (sl c) y])
+    (hrows : ∀ c ∈ batches, (mk c).rows = (sl c).length)
+    (hR : ((batches.map mk).headD []).imgLen = R) (Y : Mat α) :
+    (Op.vstack (batches.map mk)).adj conj Y = [explicitAdjoint conj FH R (batches.map sl).flatten Y] := by
+  simp only [Op.adj, hR, explicitAdjoint, List.cons.injEq, and_true]
+  apply List.map_congr_left
+  intro r hr
+  have hr' : r < R := List.mem_range.mp hr
+  rw [← splitRows_zip_sum, List.map_map, List.map_map, List.zipWith_map_left, List.zipWith_map_left, List.map_zipWith]
+  have hlen : List.map (Chain.rows ∘ mk) batches = List.map (List.length ∘ sl) batches := by
+    apply List.map_congr_left
+    intro c hc
+    exact hrows c hc
+  rw [hlen]
+  congr 1
+  apply zipWith_congr_mem
+  intro c hc y
+  rw [hadj c hc y]
+  simp only [explicitAdjoint, List.headD_cons]
+  rw [getD_range_map_lt _ _ _ hr']
+
+omit [CommSemiring α] in
+theorem coilData_length (sqrt : α → α) (w : Weights α) (mps : Mat α)
+    (hw : ∀ wc, w = .perCoil wc → wc.length = mps.length) : (coilData sqrt w mps).length = mps.length := by
+  cases w with
+  | none => simp [coilData]
+  | shared w => simp [coilData]
+  | perCoil wc => simp [coilData, hw wc rfl]
+
+omit [CommSemiring α] in
+/-- the coils (map + weight row) handed to batch `c` are the slice `[c·b, (c+1)·b)` of all coils -/
+theorem coilData_batch (sqrt : α → α) (w : Weights α) (mps : Mat α) (c b n : Int) :
+    coilData sqrt (batchWeights w c b n) (pySlice mps (Gen.senseMpsLo c b n) (Gen.senseMpsHi c b n))
+      = pySlice (coilData sqrt w mps) (Gen.senseMpsLo c b n) (Gen.senseMpsHi c b n) := by
+  cases w with
+  | none => simp only [coilData, batchWeights, pySlice_map]
+  | shared w => simp only [coilData, batchWeights, pySlice_map]
+  | perCoil wc =>
+    simp only [coilData, batchWeights, weights_sliced_with_coils.1, if_true, weights_sliced_with_coils.2.1,
+      weights_sliced_with_coils.2.2, pySlice_zipWith]
+
+omit [CommSemiring α] in
+theorem unbatched_rows [Add α] [Mul α] [Zero α] (sqrt : α → α) (mps F : Mat α) (w : Weights α) :
+    (senseUnbatched sqrt mps F w).rows = mps.length ∧ (senseUnbatched sqrt mps F w).imgLen = (mps.headD []).length := by
+  cases w <;> simp [senseUnbatched, Chain.rows, Chain.imgLen]
+
+/-- a non-empty slice of a rectangular coil array starts with a row of the common length -/
+theorem pySlice_head_length {β : Type} (mps : List (List β)) (R : Nat) (hrect : ∀ m ∈ mps, m.length = R) (lo hi : Int)
+    (hne : pySlice mps lo hi ≠ []) : ((pySlice mps lo hi).headD []).length = R := by
+  cases hs : pySlice mps lo hi with
+  | nil => exact absurd hs hne
+  | cons a l =>
+    have : a ∈ pySlice mps lo hi := by rw [hs]; simp
+    unfold pySlice at this
+    exact hrect a (List.mem_of_mem_drop (List.mem_of_mem_take this))
+
+/-- **sense_adjoint_batch_invariant.** For EVERY batch size `b ≥ 1` the adjoint of the batched operator —
+    `Vstack(axis=0).H = Hstack`: split the k-space rows by the batches' coil counts, apply each batch's
+    `Sense(mps[c·b:(c+1)·b], weights-of-batch).H`, sum the images — equals the adjoint of the unbatched operator
+    `y ↦ Σ_c conj(mps_c) ⊙ Fᴴ(conj √w_c ⊙ y_c)`, with no weights, k-space-shaped weights shared by the batches, and
+    per-coil weights sliced like the coils.  `Op.adj` is the definition the driver runs against the real `A.H(y)`.
+    Hypotheses = the arrays are arrays: every coil map has `R` entries, per-coil weights have one row per coil. -/
+theorem sense_adjoint_batch_invariant (conj : α → α) (o : SenseOpts α) (B : Nat) (hB : 0 < B) (R : Nat)
+    (hrect : ∀ m ∈ o.mps, m.length = R) (hw : ∀ wc, o.weights = .perCoil wc → wc.length = o.mps.length) (Y : Mat α) :
+    (sense { o with batch := some (B : Int) }).adj conj Y = (sense { o with batch := none }).adj conj Y := by
+  rw [sense_adjoint_denote]
+  by_cases hb : Gen.senseBatched (o.mps.length : Int) B = true
+  · have hpart := batch_slices_partition (coilData o.sqrt o.weights o.mps) o.mps.length B hB
+      (le_of_eq (coilData_length _ _ _ hw))
+    have hn : (B : Int) < o.mps.length := by simpa [Gen.senseBatched] using hb
+    have hne : o.mps ≠ [] := by intro h; rw [h] at hn; simp at hn; omega
+    have hR0 : (o.mps.headD []).length = R := by
+      cases hm : o.mps with
+      | nil => exact absurd hm hne
+      | cons a l => exact hrect a (by rw [hm]; simp)
+    -- every batch is non-empty
+    have hslice : ∀ c ∈ Gen.senseBatchRange (Gen.senseNumCoilBatches o.mps.length B) o.mps.length B,
+        pySlice o.mps (Gen.senseMpsLo c B o.mps.length) (Gen.senseMpsHi c B o.mps.length) ≠ [] := by
+      intro c hc
+      have h1 := sense_batches_nonempty o.mps.length B hB c hc
+      rw [(senseMps_lo_hi _ _ _).1] at h1
+      intro h
+      have := congrArg List.length h
+      rw [pySlice_length, (senseMps_lo_hi _ _ _).1, (senseMps_lo_hi _ _ _).2] at this
+      have e1 : ((c + 1) * (B : Int)).toNat - (c * (B : Int)).toNat = B := by
+        have : (c + 1) * (B : Int) = c * B + B := by ring
+        omega
+      rw [e1] at this
+      simp only [List.length_nil] at this
+      omega
+    unfold sense
+    simp only [hb, if_true]
+    rw [vstack_adjoint conj (fourierAdjRow conj R o.F) R _ _
+      (fun c => pySlice (coilData o.sqrt o.weights o.mps) (Gen.senseMpsLo c B o.mps.length) (Gen.senseMpsHi c B o.mps.length))
+      ?_ ?_ ?_ Y, hpart, hR0]
+    · intro c hc y
+      rw [unbatched_adj, coilData_batch, pySlice_head_length o.mps R hrect _ _ (hslice c hc)]
+    · intro c hc
+      rw [(unbatched_rows _ _ _ _).1]
+      exact pySlice_length_congr _ _ (coilData_length _ _ _ hw).symm _ _
+    · cases hbs : Gen.senseBatchRange (Gen.senseNumCoilBatches o.mps.length B) o.mps.length B with
+      | nil =>
+        rw [hbs] at hpart
+        simp only [List.map_nil, List.flatten_nil] at hpart
+        have := congrArg List.length hpart
+        rw [coilData_length _ _ _ hw] at this
+        simp only [List.length_nil] at this
+        exact absurd (List.length_eq_zero_iff.mp this.symm) hne
+      | cons c0 rest =>
+        simp only [List.map_cons, List.headD_cons]
+        rw [(unbatched_rows _ _ _ _).2]
+        exact pySlice_head_length o.mps R hrect _ _ (hslice c0 (by rw [hbs]; simp))
+  · unfold sense
+    simp only [hb, Bool.false_eq_true, if_false, Op.adj]
+    exact unbatched_adj conj o.sqrt o.mps o.F o.weights Y
+
+end adjoint
+
+/-! ### index-wise denotation and the adjoint identity (dot test) -/
+
+section indexwise
+variable {α : Type} [CommSemiring α]
+
+/-- `√w[c,k]` (`1` without weights, `√w[k]` for weights without a coil axis) -/
+def swAt (sqrt : α → α) (w : Weights α) (c k : Nat) : α :=
+  match w with
+  | .none => 1
+  | .shared w => wpow sqrt (w.getD k 0)
+  | .perCoil wc => wpow sqrt ((wc.getD c []).getD k 0)
+
+/-- the request is a well-shaped set of arrays: `mps : n × R`, `F : K × R`, weights `K` or `n × K` -/
+structure Shaped (o : SenseOpts α) (n R K : Nat) : Prop where
+  mpsRows : o.mps.length = n
+  mpsRect : ∀ m ∈ o.mps, m.length = R
+  fRows : o.F.length = K
+  fRect : ∀ f ∈ o.F, f.length = R
+  wShared : ∀ w, o.weights = .shared w → w.length = K
+  wCoilRows : ∀ wc, o.weights = .perCoil wc → wc.length = n
+  wCoilRect : ∀ wc, o.weights = .perCoil wc → ∀ row ∈ wc, row.length = K
+
+theorem getD_mem {β : Type} (l : List β) (i : Nat) (h : i < l.length) (d : β) : l.getD i d ∈ l := by
+  rw [getD_of_lt _ _ h]; exact List.getElem_mem h
+
+theorem vmul_getD (a b : Vec α) (n i : Nat) (ha : a.length = n) (hb : b.length = n) (hi : i < n) :
+    (vmul a b).getD i 0 = a.getD i 0 * b.getD i 0 := by
+  unfold vmul
+  exact getD_zipWith_lt _ a b i (by omega) (by omega) 0 0 0
+
+theorem vmul_length (a b : Vec α) (n : Nat) (ha : a.length = n) (hb : b.length = n) : (vmul a b).length = n := by
+  unfold vmul; simp [ha, hb]
+
+theorem encode_length (F : Mat α) (x m : Vec α) : (encode F x m).length = F.length := by
+  unfold encode; simp
+
+theorem encode_getD (F : Mat α) (x m : Vec α) (R k : Nat) (hk : k < F.length) (hF : ∀ f ∈ F, f.length = R)
+    (hm : m.length = R) (hx : x.length = R) :
+    (encode F x m).getD k 0 = ∑ r ∈ Finset.range R, (F.getD k []).getD r 0 * (m.getD r 0 * x.getD r 0) := by
+  unfold encode
+  rw [getD_map_lt _ F k hk 0 [], dot, vmul,
+    zipWith_sum_eq_range _ _ _ R (hF _ (getD_mem F k hk [])) (vmul_length m x R hm hx) 0 0]
+  apply Finset.sum_congr rfl
+  intro r hr
+  rw [vmul_getD m x R r hm hx (Finset.mem_range.mp hr)]
+
+/-- **sense_denote_index.** Index-wise form of `sense_denote`: for a `K × R` Fourier matrix `F`,
+    `Sense(mps, weights)(x)[c, k] = √w[c,k] · Σ_r F[k,r] · mps[c,r] · x[r]` for every coil `c < n` and k-space
+    position `k < K` (`√w[k]` for weights without a coil axis, `1` without weights). -/
+theorem sense_denote_index (o : SenseOpts α) (x : Vec α) (n R K : Nat) (hs : Shaped o n R K) (hx : x.length = R)
+    (c k : Nat) (hc : c < n) (hk : k < K) :
+    (((sense { o with batch := none }).apply [x]).getD c []).getD k 0 =
+      swAt o.sqrt o.weights c k *
+        ∑ r ∈ Finset.range R, (o.F.getD k []).getD r 0 * ((o.mps.getD c []).getD r 0 * x.getD r 0) := by
+  rw [sense_denote]
+  have hcm : c < o.mps.length := by rw [hs.mpsRows]; exact hc
+  have hkF : k < o.F.length := by rw [hs.fRows]; exact hk
+  have hm := hs.mpsRect _ (getD_mem o.mps c hcm [])
+  cases hw : o.weights with
+  | none =>
+    simp only [explicitSense, swAt, one_mul]
+    rw [getD_map_lt _ o.mps c hcm [] [], encode_getD o.F x _ R k hkF hs.fRect hm hx]
+  | shared w =>
+    simp only [explicitSense, swAt]
+    rw [getD_map_lt _ o.mps c hcm [] [], vmul_getD _ _ K k (by simp [hs.wShared w hw]) (by rw [encode_length, hs.fRows]) hk,
+      getD_map_lt _ w k (by rw [hs.wShared w hw]; exact hk) 0 0, encode_getD o.F x _ R k hkF hs.fRect hm hx]
+  | perCoil wc =>
+    simp only [explicitSense, swAt]
+    have hcw : c < wc.length := by rw [hs.wCoilRows wc hw]; exact hc
+    have hrow := hs.wCoilRect wc hw _ (getD_mem wc c hcw [])
+    rw [getD_zipWith_lt _ wc o.mps c hcw hcm [] [] [], vmul_getD _ _ K k (by rw [List.length_map, hrow]) (by rw [encode_length, hs.fRows]) hk,
+      getD_map_lt _ _ k (by rw [hrow]; exact hk) 0 0, encode_getD o.F x _ R k hkF hs.fRect hm hx]
+
+end indexwise
+
+section dot
+variable {α : Type} [CommSemiring α] [StarRing α]
+
+/-- **sense_dot_test_abstract.** For an ABSTRACT Fourier stage `F` (any map: linearity is not needed) and an
+    abstract `Fᴴ` with `⟨F u, v⟩ = ⟨u, Fᴴ v⟩`, the operator `A x = (√w_c ⊙ F(mps_c ⊙ x))_c` and
+    `Aᴴ y = Σ_c conj(mps_c) ⊙ Fᴴ(conj √w_c ⊙ y_c)` satisfy `⟨A x, y⟩ = ⟨x, Aᴴ y⟩`
+    (`⟨a, b⟩ = Σ a·conj b`; over `ℂ`, `star = conj`). -/
+theorem sense_dot_test_abstract {C Kt Rt : Type} (sC : Finset C) (sK : Finset Kt) (sR : Finset Rt)
+    (F : (Rt → α) → (Kt → α)) (FH : (Kt → α) → (Rt → α))
+    (hF : ∀ u v, ∑ k ∈ sK, F u k * star (v k) = ∑ r ∈ sR, u r * star (FH v r))
+    (m : C → Rt → α) (sw : C → Kt → α) (x : Rt → α) (y : C → Kt → α) :
+    ∑ c ∈ sC, ∑ k ∈ sK, (sw c k * F (fun r => m c r * x r) k) * star (y c k) =
+      ∑ r ∈ sR, x r * star (∑ c ∈ sC, star (m c r) * FH (fun k => star (sw c k) * y c k) r) := by
+  have h1 : ∀ c ∈ sC, ∑ k ∈ sK, (sw c k * F (fun r => m c r * x r) k) * star (y c k)
+      = ∑ r ∈ sR, x r * (m c r * star (FH (fun k => star (sw c k) * y c k) r)) := by
+    intro c _
+    rw [← Finset.sum_congr rfl (fun r _ => (mul_assoc (m c r) (x r) _).trans (mul_left_comm (m c r) (x r) _)),
+      ← hF (fun r => m c r * x r) (fun k => star (sw c k) * y c k)]
+    apply Finset.sum_congr rfl
+    intro k _
+    rw [star_mul', star_star]; ring
+  rw [Finset.sum_congr rfl h1, Finset.sum_comm]
+  apply Finset.sum_congr rfl
+  intro r _
+  rw [star_sum, Finset.mul_sum]
+  apply Finset.sum_congr rfl
+  intro c _
+  rw [star_mul', star_star]
+
+/-- the conjugate transpose of a matrix satisfies the adjoint identity -/
+theorem matrix_adjoint_identity {Kt Rt : Type} (sK : Finset Kt) (sR : Finset Rt) (Fm : Kt → Rt → α) (u : Rt → α) (v : Kt → α) :
+    ∑ k ∈ sK, (∑ r ∈ sR, Fm k r * u r) * star (v k) = ∑ r ∈ sR, u r * star (∑ k ∈ sK, star (Fm k r) * v k) := by
+  simp only [Finset.sum_mul, star_sum, Finset.mul_sum, star_mul', star_star]
+  rw [Finset.sum_comm]
+  apply Finset.sum_congr rfl; intro r _
+  apply Finset.sum_congr rfl; intro k _
+  ring
+
+/-- the `√w` row of coil `c` -/
+def swRow (sqrt : α → α) (w : Weights α) (c : Nat) : Option (Vec α) :=
+  match w with
+  | .none => none
+  | .shared w => some (w.map (wpow sqrt))
+  | .perCoil wc => some ((wc.getD c []).map (wpow sqrt))
+
+omit [CommSemiring α] [StarRing α] in
+theorem coilData_getD (o : SenseOpts α) (n R K : Nat) (hs : Shaped o n R K) (c : Nat) (hc : c < n) :
+    (coilData o.sqrt o.weights o.mps).getD c ([], none) = (o.mps.getD c [], swRow o.sqrt o.weights c) := by
+  have hcm : c < o.mps.length := by rw [hs.mpsRows]; exact hc
+  cases hw : o.weights with
+  | none => simp only [coilData, swRow]; rw [getD_map_lt _ o.mps c hcm _ []]
+  | shared w => simp only [coilData, swRow]; rw [getD_map_lt _ o.mps c hcm _ []]
+  | perCoil wc =>
+    simp only [coilData, swRow]
+    rw [getD_zipWith_lt _ o.mps wc c hcm (by rw [hs.wCoilRows wc hw]; exact hc) _ [] []]
+
+theorem weighRow_spec (o : SenseOpts α) (n R K : Nat) (hs : Shaped o n R K) (c : Nat) (hc : c < n) (y : Vec α) (hy : y.length = K) :
+    (weighRow star (swRow o.sqrt o.weights c) y).length = K ∧
+    ∀ k, k < K → (weighRow star (swRow o.sqrt o.weights c) y).getD k 0 = star (swAt o.sqrt o.weights c k) * y.getD k 0 := by
+  cases hw : o.weights with
+  | none => simp [weighRow, swRow, swAt, hy]
+  | shared w =>
+    have hl : (List.map star (List.map (wpow o.sqrt) w)).length = K := by simp [hs.wShared w hw]
+    refine ⟨vmul_length _ _ K hl hy, fun k hk => ?_⟩
+    simp only [weighRow, swRow, swAt]
+    rw [vmul_getD _ _ K k hl hy hk, getD_map_lt _ _ k (by rw [List.length_map, hs.wShared w hw]; exact hk) 0 0,
+      getD_map_lt _ w k (by rw [hs.wShared w hw]; exact hk) 0 0]
+  | perCoil wc =>
+    have hcw : c < wc.length := by rw [hs.wCoilRows wc hw]; exact hc
+    have hrow := hs.wCoilRect wc hw _ (getD_mem wc c hcw [])
+    have hl : (List.map star (List.map (wpow o.sqrt) (wc.getD c []))).length = K := by
+      rw [List.length_map, List.length_map, hrow]
+    refine ⟨vmul_length _ _ K hl hy, fun k hk => ?_⟩
+    simp only [weighRow, swRow, swAt]
+    rw [vmul_getD _ _ K k hl hy hk, getD_map_lt _ _ k (by rw [List.length_map, hrow]; exact hk) 0 0,
+      getD_map_lt _ _ k (by rw [hrow]; exact hk) 0 0]
+
+/-- **sense_adjoint_index.** Index-wise form of the adjoint the driver runs (`Op.adj` with `conj = star`):
+    `Sense(mps, weights).H(y)[r] = Σ_c conj(mps[c,r]) · Σ_k conj(F[k,r]) · conj(√w[c,k]) · y[c,k]`. -/
+theorem sense_adjoint_index (o : SenseOpts α) (Y : Mat α) (n R K : Nat) (hs : Shaped o n R K)
+    (hY : Y.length = n) (hYr : ∀ row ∈ Y, row.length = K) (r : Nat) (hr : r < R) :
+    (((sense { o with batch := none }).adj star Y).headD []).getD r 0 =
+      ∑ c ∈ Finset.range n, star ((o.mps.getD c []).getD r 0) *
+        ∑ k ∈ Finset.range K, star ((o.F.getD k []).getD r 0) * (star (swAt o.sqrt o.weights c k) * (Y.getD c []).getD k 0) := by
+  rw [sense_adjoint_denote]
+  simp only [List.headD_cons]
+  by_cases hn : n = 0
+  · subst hn
+    have : o.mps = [] := List.length_eq_zero_iff.mp hs.mpsRows
+    simp [this, explicitAdjoint]
+  · have hR0 : (o.mps.headD []).length = R := by
+      cases hm : o.mps with
+      | nil => have h0 := hs.mpsRows; rw [hm] at h0; simp at h0; omega
+      | cons a l => exact hs.mpsRect a (by rw [hm]; simp)
+    rw [hR0]
+    unfold explicitAdjoint
+    rw [getD_range_map_lt _ _ _ hr,
+      zipWith_sum_eq_range _ _ _ n ((coilData_length _ _ _ (fun wc hw => (hs.wCoilRows wc hw).trans hs.mpsRows.symm)).trans hs.mpsRows)
+        hY ([], none) []]
+    apply Finset.sum_congr rfl
+    intro c hc
+    have hc' : c < n := Finset.mem_range.mp hc
+    have hy := hYr _ (getD_mem Y c (by rw [hY]; exact hc') [])
+    obtain ⟨hwl, hwk⟩ := weighRow_spec o n R K hs c hc' (Y.getD c []) hy
+    rw [coilData_getD o n R K hs c hc']
+    simp only [coilAdjTerm, fourierAdjRow]
+    rw [getD_range_map_lt _ _ _ hr, zipWith_sum_eq_range _ _ _ K hs.fRows hwl [] 0]
+    congr 1
+    apply Finset.sum_congr rfl
+    intro k hk
+    rw [hwk k (Finset.mem_range.mp hk)]
+
+/-- **sense_dot_test.** The adjoint identity for the model the driver runs, over any commutative `*`-ring (`ℂ`
+    with `star = conj`): `⟨A x, y⟩ = ⟨x, Aᴴ y⟩`, i.e.
+    `Σ_{c<n,k<K} (A x)[c,k]·conj y[c,k] = Σ_{r<R} x[r]·conj (Aᴴ y)[r]`, for the unbatched operator and — by
+    `sense_batch_invariant` / `sense_adjoint_batch_invariant` — for EVERY `coil_batch_size ≥ 1`. -/
+theorem sense_dot_test (o : SenseOpts α) (x : Vec α) (Y : Mat α) (n R K : Nat) (hs : Shaped o n R K) (hx : x.length = R)
+    (hY : Y.length = n) (hYr : ∀ row ∈ Y, row.length = K) (b : Option Nat) (hb : ∀ B, b = some B → 0 < B) :
+    let A := sense { o with batch := b.map Int.ofNat }
+    ∑ c ∈ Finset.range n, ∑ k ∈ Finset.range K, ((A.apply [x]).getD c []).getD k 0 * star ((Y.getD c []).getD k 0)
+      = ∑ r ∈ Finset.range R, x.getD r 0 * star (((A.adj star Y).headD []).getD r 0) := by
+  intro A
+  have hA : A.apply [x] = (sense { o with batch := none }).apply [x] ∧ A.adj star Y = (sense { o with batch := none }).adj star Y := by
+    cases b with
+    | none => exact ⟨rfl, rfl⟩
+    | some B =>
+      exact ⟨sense_batch_invariant o B (hb B rfl) x,
+        sense_adjoint_batch_invariant star o B (hb B rfl) R hs.mpsRect
+          (fun wc hw => (hs.wCoilRows wc hw).trans hs.mpsRows.symm) Y⟩
+  rw [hA.1, hA.2]
+  have key := sense_dot_test_abstract (Finset.range n) (Finset.range K) (Finset.range R)
+    (fun u k => ∑ r ∈ Finset.range R, (o.F.getD k []).getD r 0 * u r)
+    (fun v r => ∑ k ∈ Finset.range K, star ((o.F.getD k []).getD r 0) * v k)
+    (fun u v => matrix_adjoint_identity _ _ (fun k r => (o.F.getD k []).getD r 0) u v)
+    (fun c r => (o.mps.getD c []).getD r 0) (fun c k => swAt o.sqrt o.weights c k) (fun r => x.getD r 0)
+    (fun c k => (Y.getD c []).getD k 0)
+  have hL : ∑ c ∈ Finset.range n, ∑ k ∈ Finset.range K,
+        (((sense { o with batch := none }).apply [x]).getD c []).getD k 0 * star ((Y.getD c []).getD k 0)
+      = ∑ c ∈ Finset.range n, ∑ k ∈ Finset.range K,
+        (swAt o.sqrt o.weights c k * ∑ r ∈ Finset.range R, (o.F.getD k []).getD r 0 * ((o.mps.getD c []).getD r 0 * x.getD r 0))
+          * star ((Y.getD c []).getD k 0) :=
+    Finset.sum_congr rfl (fun c hc => Finset.sum_congr rfl (fun k hk => by
+      rw [sense_denote_index o x n R K hs hx c k (Finset.mem_range.mp hc) (Finset.mem_range.mp hk)]))
+  have hRr : ∑ r ∈ Finset.range R, x.getD r 0 * star ((((sense { o with batch := none }).adj star Y).headD []).getD r 0)
+      = ∑ r ∈ Finset.range R, x.getD r 0 * star (∑ c ∈ Finset.range n, star ((o.mps.getD c []).getD r 0) *
+        ∑ k ∈ Finset.range K, star ((o.F.getD k []).getD r 0) * (star (swAt o.sqrt o.weights c k) * (Y.getD c []).getD k 0)) :=
+    Finset.sum_congr rfl (fun r hr => by rw [sense_adjoint_index o Y n R K hs hY hYr r (Finset.mem_range.mp hr)])
+  rw [hL, hRr]
+  exact key
+
+end dot
+
+/-- the dot test over `ℂ` with complex conjugation -/
+theorem sense_dot_test_complex (o : SenseOpts ℂ) (x : Vec ℂ) (Y : Mat ℂ) (n R K : Nat) (hs : Shaped o n R K) (hx : x.length = R)
+    (hY : Y.length = n) (hYr : ∀ row ∈ Y, row.length = K) (B : Nat) (hB : 0 < B) :
+    ∑ c ∈ Finset.range n, ∑ k ∈ Finset.range K,
+        (((sense { o with batch := some (B : Int) }).apply [x]).getD c []).getD k 0 * (starRingEnd ℂ) ((Y.getD c []).getD k 0)
+      = ∑ r ∈ Finset.range R, x.getD r 0 *
+          (starRingEnd ℂ) ((((sense { o with batch := some (B : Int) }).adj (starRingEnd ℂ) Y).headD []).getD r 0) :=
+  sense_dot_test o x Y n R K hs hx hY hYr (some B) (fun _ h => by cases h; exact hB)
+
+/-- a 2-coil, 2-pixel, 3-sample request with per-coil weights, batched one coil at a time -/
+def exampleOpts : SenseOpts ℂ where
+  mps := [[1, 2], [3, 4]]
+  F := [[1, 0], [0, 1], [1, 1]]
+  weights := .perCoil [[1, 4, 9], [0, 1, 4]]
+  batch := some 1
+  sqrt := id
+
+/-- non-vacuity: the hypotheses of the index-wise theorems and of the dot test are satisfiable -/
+example : Shaped exampleOpts 2 2 3 where
+  mpsRows := rfl
+  mpsRect := by simp [exampleOpts]
+  fRows := rfl
+  fRect := by simp [exampleOpts]
+  wShared := by intro w h; simp [exampleOpts] at h
+  wCoilRows := by intro wc h; simp [exampleOpts] at h; subst h; rfl
+  wCoilRect := by intro wc h; simp [exampleOpts] at h; subst h; simp
 
 /-! ### recon set-ups -/
 
